@@ -213,3 +213,60 @@ void h_LookupSymbol(void) {
         VREACH("undefined");
     }
 }
+
+/* ---- range check of expression results (C14 / C09: "rejected instead of truncated") ------------
+ * The formula parser is replaced by an oracle (goto-instrument --replace-calls
+ * EvalStrExpression:verif_EvalStrExpression): it returns an arbitrary integer with arbitrary flags. */
+static long long g_ev_int; static unsigned g_ev_flags; static int g_ev_typ;
+void verif_EvalStrExpression(tStrComp const* pExpr, TempResult* pErg) {
+    (void)pExpr;
+    pErg->Flags = (tSymbolFlags)g_ev_flags; pErg->AddrSpaceMask = 0; pErg->DataSize = eSymbolSizeUnknown; pErg->Relocs = NULL;
+    if (g_ev_typ == TempInt) { pErg->Typ = TempInt; pErg->Contents.Int = g_ev_int; }
+    else if (g_ev_typ == TempFloat) { pErg->Typ = TempFloat; pErg->Contents.Float = 1.5; }
+    else pErg->Typ = TempNone;
+}
+void SetRelocs(PRelocEntry List) { (void)List; }
+
+/* the table of integer types as asmpars_init builds it, against the definition of the types */
+static long long spec_min(int t) { unsigned sw = IntTypeDefs[t].SignAndWidth, n = sw & 0xff, cls = (sw >> 8) & 0xc0;
+    return (cls == 0x00) ? 0 : -(long long)(1ull << (n - 1)); }
+static unsigned long long spec_max(int t) { unsigned sw = IntTypeDefs[t].SignAndWidth, n = sw & 0xff, cls = (sw >> 8) & 0xc0;
+    return (cls == 0x80) ? (1ull << (n - 1)) - 1 : (n >= 64 ? ~0ull : (1ull << n) - 1); }
+
+void h_IntTypeDefs(void) {
+    int t;
+    asmpars_init();
+    VND(t, int); VASSUME(t >= 0 && t < (int)SInt64);
+    VPOST(IntTypeDefs[t].Min == spec_min(t) && (unsigned long long)IntTypeDefs[t].Max == spec_max(t),
+          "C09: every integer type below 64 bits accepts exactly [-2^(n-1), 2^(n-1)-1] (signed), [0, 2^n-1] (unsigned) or [-2^(n-1), 2^n-1] (either)");
+    VPOST(IntTypeDefs[t].Mask == spec_max(t), "C09: the mask of a type is its largest value");
+    VREACH("end");
+}
+
+void h_EvalStrInt_range(void) {
+    static tStrComp comp; static char nm[2]; tEvalResult er; LargeInt r; int t; unsigned long ec;
+    asmpars_init();
+    nm[0] = 'x'; nm[1] = 0; comp.str.p_str = nm;
+    VND(t, int); VASSUME(t >= 0 && t < (int)SInt64);
+    VND(g_ev_int, i64); VND(g_ev_flags, uint); g_ev_typ = TempInt;
+    VND(HardRanges, uchar); VASSUME(HardRanges <= 1);
+    VND(g_err_cnt, ulong); VASSUME(g_err_cnt < 1000000);
+    LastRelocs = NULL;
+    ec = g_err_cnt;
+    r = EvalStrIntExpressionWithResult(&comp, (IntType)t, &er);
+    if (!(g_ev_flags & eSymbolFlag_FirstPassUnknown)) {
+        if (g_ev_int >= spec_min(t) && (g_ev_int < 0 || (unsigned long long)g_ev_int <= spec_max(t))) {
+            VPOST(er.OK && r == g_ev_int && g_err_cnt == ec, "C14: a value that fits its field is passed on unchanged");
+            VREACH("fits");
+        } else if (HardRanges) {
+            VPOST(!er.OK && r == -1 && g_err_cnt == ec + 1 && g_err_last == ErrNum_OverRange, "C14: a value outside its field is rejected with an error instead of being truncated");
+            VREACH("rejected");
+        } else {
+            VPOST(er.OK && g_err_cnt == ec + 1 && g_err_last == ErrNum_WOverRange, "C14: with relaxed ranges the truncation is at least reported as a warning");
+            VREACH("relaxed");
+        }
+    } else {
+        VPOST(!er.OK || ((unsigned long long)r & ~IntTypeDefs[t].Mask) == 0 || r == g_ev_int, "C14: a first-pass placeholder is masked to the field, never rejected for its size alone");
+        VREACH("unknown");
+    }
+}
